@@ -53,8 +53,8 @@ TEXT = {
         "text": "Theorem C06_fixpoint_v4: for every accepted byte string, encode succeeds, decodes to norm4 of the value (pointwise equal options) and re-encodes to the same bytes; the "
                 "decoder's image is proved inside the encoder's domain. Theorem C06_fixpoint_v6: for every accepted DHCPv6 byte string (all 32 option types, any nesting) whose decoded "
                 "value re-encodes within the 16-bit length fields, the re-encoding decodes to the canonical form of the value and that form encodes to the same bytes; "
-                "C06_fixpoint_v6_no_embedded_v4 discharges the side condition for every message without an embedded DHCPv4 message (re-encoding never grows, "
-                "C06_reencoding_no_longer_v6). Where the side condition fails the real code breaks the property: C06_v6_refuted_when_reencoding_overflows (an IA_NA with 260 "
+                "C06_fixpoint_v6_no_embedded_v4 discharges the side condition for every message in which no embedded DHCPv4 message gets padded to the 300-octet floor (in particular "
+                "without any; re-encoding never grows: C06_reencoding_no_longer_v6, C06_reencoding_length_v4). Where the side condition fails the real code breaks the property: C06_v6_refuted_when_reencoding_overflows (an IA_NA with 260 "
                 "embedded DHCPv4 messages of 241 octets, each padded to 300 on re-encoding) - recorded as known finding F12 and replayed on the real code on every run. "
                 "The direct fixpoint oracle b->m1->b1->m2->b2 runs on the real API over non-canonical v4 areas and every out-of-range v6 numeric field.",
         "note": COMMON_NOTE + "Known finding F12 (known_findings.json): the check prints a KNOWN-FINDING line for that input and exits 0; any other fixpoint failure is a VIOLATION.",
